@@ -50,6 +50,19 @@ def sem(e):
     return e[2] if (e is not None and e[0] == "raw") else e
 
 
+def eff(cfg):
+    """the expression in force: the --tags expression, AND-ed with @wip under --wip"""
+    e = sem(cfg.get("expr"))
+    if cfg.get("wip_mode"):
+        return ["has", "wip"] if e is None else ["and", e, ["has", "wip"]]
+    return e
+
+
+WIP_POOL = [None, T("t1"), ["or", T("wip"), T("t1")], N("wip"), ["and", T("wip"), T("t2")],
+            ["raw", ["@t1,@wip"], ["or", T("t1"), T("wip")]], ["raw", ["not @wip"], N("wip")], ["raw", ["@wip or @t2"], ["or", T("wip"), T("t2")]],
+            ["raw", ["@t1", "not @wip"], ["and", T("t1"), N("wip")]], ["raw", ["~@wip"], N("wip")]]
+
+
 def containers_of(prog):
     """(name, kind, list of scenario names inside) for every feature and rule whose
     sub-elements are all non-empty (an outline without rows / a rule without items is out of scope)"""
@@ -96,7 +109,7 @@ def oracle(prog, obs):
     if obs.get("crashed"):
         return [("runner.run() let an exception escape: %s" % obs["crashed"], "run-crashed")]
     cfg = prog["cfg"]
-    e = sem(cfg.get("expr"))
+    e = eff(cfg)
     res = results_of(obs)
     touched = {}
     for ev in obs["log"]:
@@ -141,7 +154,7 @@ def oracle(prog, obs):
 
 
 def nontrivial(prog, obs):
-    e = sem(prog["cfg"].get("expr"))
+    e = eff(prog["cfg"])
     sels = [eval_expr(e, tags) for _n, _s, tags in scenarios_of(prog)]
     return any(sels) and not all(sels)
 
@@ -163,6 +176,11 @@ def suites(tier, seed):
     for i in range(n // 4):
         p = rc.gen_program(rnd)
         p["cfg"]["expr"] = rnd.choice(POOL)
+        cases.append(p)
+    # --wip: only scenarios that are @wip (own or inherited) run, whatever the --tags options say about @wip themselves
+    for i in range(n // 8):
+        p = rc.gen_program(rnd, kinds=KINDS)
+        p["cfg"].update(expr=WIP_POOL[i % len(WIP_POOL)], wip_mode=True, stop=True, faults=[])
         cases.append(p)
     return [{"name": "selection", "cases": cases, "impl": rc.impl_run, "oracle": oracle, "nontrivial": nontrivial,
              "histogram": rc.histogram, "shrink": rc.shrink_program,
